@@ -70,6 +70,7 @@ func run(c *engine.Ctx) {
 	}
 
 	runIsolation(c, w, next)
+	runSubst(c, w, next)
 
 	// ---- part (v): schema <=> loader (cheap, first) ----------------------------
 	runSchemaPart(c, w, next)
@@ -276,6 +277,12 @@ func replay(c *engine.Ctx, raw json.RawMessage) {
 
 	var part struct {
 		Part string `json:"part"`
+	}
+
+	if json.Unmarshal(raw, &part) == nil && part.Part == "substitution" {
+		replaySubst(c, w, raw)
+
+		return
 	}
 
 	if json.Unmarshal(raw, &part) == nil && part.Part == "isolation" {
